@@ -371,7 +371,12 @@ func lcMain(prop string, progs []lcProg, boundQ, boundT int, what string, level 
 	}
 	r.Rule = what + lcRuleTail(bound, len(progs))
 	r.Assumptions = lcAssumptions
-	r.Parallel(16, "Test"+prop, func() { lcExplore(r, prop, progs, bound) })
+	r.Parallel(16, "Test"+prop, func() {
+		if prop == "C18" {
+			c17cExplore(r, "C18") // the summon protocol at the hydra API with the live-instance monitor
+		}
+		lcExplore(r, prop, progs, bound)
+	})
 }
 
 var lcAssumptions = []string{"sequentially consistent memory (scheduling points at synchronisation operations)", "idle eviction is driven by an environment thread that advances the virtual clock past the idle window and fires the 1 s tickers as an ordinary thread step", "deadlock = no enabled thread or timer while a client thread is unfinished, or all client threads blocked for 10 virtual minutes while only periodic timers run"}
